@@ -91,7 +91,7 @@ KEEP = {
 
 
 def text_tokens(spec):
-    return [t for n, t, c in spec.get("details", []) if c == "text"]
+    return [t for n, t, c in spec.get("details", []) if c in ("text", "text-split")]
 
 
 def check_payload(ctx, flavour, spec, ev, detail):
@@ -102,7 +102,7 @@ def check_payload(ctx, flavour, spec, ev, detail):
     rich = flavour in ("ext", "real")
     if rich:
         if form == "details":
-            want = {n: t.encode("utf8") for n, t, c in spec["details"]}
+            want = {n: H.detail_bytes(t, c) for n, t, c in spec["details"]}
             got = {n: v[1] for n, v in (p.get("details") or {}).items()}
             ok, why = got == want, "details differ"
         elif form == "exc":
@@ -160,7 +160,7 @@ def x_case(ctx, case):
     if err is not None:
         return True
     for spec, d in handed:
-        want = {n: t.encode("utf8") for n, t, c in spec["details"]}
+        want = {n: H.detail_bytes(t, c) for n, t, c in spec["details"]}
         got = {n: b"".join(c.iter_bytes()) for n, c in d.items()}
         ctx.check(got == want, "caller.details-not-mutated",
                   lambda: {"spec": spec, "after": sorted(got), "before": sorted(want), **detail()})
@@ -243,7 +243,7 @@ def x_case(ctx, case):
                 i += 1
                 want_details = None
                 if spec["form"] == "details":
-                    want_details = {n: t.encode("utf8") for n, t, c in spec["details"]}
+                    want_details = {n: H.detail_bytes(t, c) for n, t, c in spec["details"]}
                 elif spec["form"] == "reason":
                     want_details = {"reason": spec["reason"].encode("utf8")}
                 got_details = None if call["details"] is None else {n: v[1] for n, v in call["details"].items()}
